@@ -117,7 +117,10 @@ def run_case(base, cls, inplace, rs, entry='node', share=False, foreign_keys=Fal
         result = ex.seq(T.flatten_top(ret))
         if cls in ('T', 'N'):
             for k, v in tr.rebuilt.items():
-                rebuilt.append({'ko': table.get(id(k), 0), 'v': ex.index.get(id(v), 0) if v is not None else 0})
+                # key: the id of the original object, or (for an equal object that is not part of the tree, e.g. a
+                # foreign key object spliced in by a self-containing handle) its own exported term
+                rebuilt.append({'ko': table.get(id(k), 0), 'kt': T.strip(T.Exporter().node(k)),
+                                'v': ex.index.get(id(v), 0) if v is not None else 0})
     orig = T.Exporter(table).seq(orig_objs)
     case = {
         'cls': cls, 'entry': entry, 'inplace': inplace, 'rs': rs,
